@@ -1091,9 +1091,36 @@ enum Rq {
   Deploy,
   /// `sent`: the value an echo request writes into its body (known outright, whatever the service's reader does)
   Eval { model: String, invocable: String, body: String, sent: Option<G> },
+  /// `POST /tck/evaluate` inside a history (the handler model's `Request.tck`)
+  Tck { model: Option<String>, invocable: Option<String>, input: TckIn },
   /// rejected before a handler runs (actix-web): not part of the handler model
   Framework(u8),
 }
+
+/// The `input` member of a TCK request.
+#[derive(Debug, Clone)]
+enum TckIn {
+  /// no `input` member
+  Missing,
+  /// an input serde reads and the conversion of dto.rs rejects (index into `TCK_BAD`)
+  Bad(usize),
+  /// one input node `x` carrying the DTO of the typed value
+  Ok(T),
+}
+
+/// Values of the one input node `x` that the derived `Deserialize` reads and `WrappedValue::try_from` rejects.
+const TCK_BAD: &[&str] = &[
+  r#"{"simple":{"type":"xsd:unknown","text":"1","isNil":false},"components":null,"list":null}"#,
+  r#"{"simple":{"type":"xsd:decimal","text":"12abc","isNil":false},"components":null,"list":null}"#,
+  r#"{"simple":{"type":"xsd:date","text":"2021-13-45","isNil":false}}"#,
+  r#"{"simple":null,"components":null,"list":null}"#,
+  r#"{}"#,
+  r#"{"components":[{"value":{"simple":{"type":"xsd:string","text":"a","isNil":false}},"isNil":false}]}"#,
+  r#"{"components":[{"name":"a","isNil":false}]}"#,
+  r#"{"simple":{"type":null,"text":"a","isNil":false}}"#,
+  r#"{"simple":{"type":"xsd:string","isNil":false}}"#,
+  r#"{"list":{"items":[{"simple":{"type":"xsd:string","text":"a","isNil":false}},{"extra":1}],"isNil":false}}"#,
+];
 
 struct Wire {
   method: &'static str,
@@ -1148,13 +1175,32 @@ impl Service {
       Rq::Clear => Wire { method: "POST", path: "/definitions/clear".into(), content_type: js, body: vec![] },
       Rq::Deploy => Wire { method: "POST", path: "/definitions/deploy".into(), content_type: js, body: vec![] },
       Rq::Eval { model, invocable, body, .. } => Wire { method: "POST", path: format!("/evaluate/{}/{}", path_segment(model), path_segment(invocable)), content_type: Some("text/plain"), body: body.clone().into_bytes() },
-      Rq::Framework(k) => match k % 7 {
+      Rq::Tck { model, invocable, input } => {
+        let mut ms: Vec<String> = vec![];
+        if let Some(m) = model {
+          ms.push(format!("\"model\":{}", json!(m)));
+        }
+        if let Some(i) = invocable {
+          ms.push(format!("\"invocable\":{}", json!(i)));
+        }
+        match input {
+          TckIn::Missing => {}
+          TckIn::Bad(k) => ms.push(format!("\"input\":[{{\"name\":\"x\",\"value\":{}}}]", TCK_BAD[k % TCK_BAD.len()])),
+          TckIn::Ok(t) => ms.push(format!("\"input\":[{{\"name\":\"x\",\"value\":{}}}]", tv_dto(t))),
+        }
+        Wire { method: "POST", path: "/tck/evaluate".into(), content_type: js, body: format!("{{{}}}", ms.join(",")).into_bytes() }
+      }
+      Rq::Framework(k) => match k % 10 {
         0 => Wire { method: "POST", path: "/definitions/add".into(), content_type: js, body: b"{\"content\": ".to_vec() },
         1 => Wire { method: "POST", path: "/definitions/remove".into(), content_type: js, body: b"[1, 2".to_vec() },
         2 => Wire { method: "POST", path: "/definitions/add".into(), content_type: js, body: vec![0x7b, 0x22, 0xff, 0xfe, 0x22, 0x3a, 0x31, 0x7d] },
         3 => Wire { method: "POST", path: "/definitions/replace".into(), content_type: Some("text/plain"), body: b"{\"content\": \"QQ==\"}".to_vec() },
         4 => Wire { method: "POST", path: "/no/such/endpoint".into(), content_type: js, body: b"{}".to_vec() },
         5 => Wire { method: "GET", path: "/definitions/add".into(), content_type: None, body: vec![] },
+        // TCK bodies the derived Deserialize rejects: a simple value without isNil, an input that is no list, a value that is a string
+        7 => Wire { method: "POST", path: "/tck/evaluate".into(), content_type: js, body: br#"{"model":"n1","invocable":"E","input":[{"name":"x","value":{"simple":{"type":"xsd:string","text":"a"}}}]}"#.to_vec() },
+        8 => Wire { method: "POST", path: "/tck/evaluate".into(), content_type: js, body: br#"{"model":"n1","invocable":"E","input":{"name":"x"}}"#.to_vec() },
+        9 => Wire { method: "POST", path: "/tck/evaluate".into(), content_type: js, body: br#"{"model":"n1","invocable":"E","input":[{"name":"x","value":"a"}]}"#.to_vec() },
         _ => Wire { method: "POST", path: "/definitions/add".into(), content_type: js, body: b"{\"content\": 5}".to_vec() },
       },
     }
@@ -1321,6 +1367,39 @@ fn run_http(cfg: &Cfg, rep: &mut Report, model: &mut Model, rng: &mut Rng) {
     Rq::Eval { model: "n1".into(), invocable: "Z".into(), body: "{}".into(), sent: None },
     Rq::Eval { model: "n9".into(), invocable: "D".into(), body: "{}".into(), sent: None },
   ]);
+  {
+    // TCK requests between the definitions operations of a directed history
+    let tck = |m: &str, i: &str, t: T| Rq::Tck { model: Some(m.into()), invocable: Some(i.into()), input: TckIn::Ok(t) };
+    let nested = T::Ctx(vec![("a".into(), T::List(vec![T::Scalar("number", "1.50".into()), T::Str("q\"\\\n".into()), T::Null])), ("b".into(), T::Ctx(vec![]))]);
+    sequences.push(vec![
+      tck("n1", "E", T::Str("before anything".into())),
+      Rq::Add(Content::Model(models[0].clone())),
+      tck("n1", "E", T::Null),
+      Rq::Deploy,
+      tck("n1", "E", nested.clone()),
+      tck("n1", "D", T::Null),
+      tck("n1", "Z", T::Bool(true)),
+      Rq::Tck { model: None, invocable: Some("E".into()), input: TckIn::Missing },
+      Rq::Tck { model: Some("n1".into()), invocable: None, input: TckIn::Missing },
+      Rq::Tck { model: Some("n1".into()), invocable: Some("E".into()), input: TckIn::Missing },
+      Rq::Tck { model: Some("n1".into()), invocable: Some("E".into()), input: TckIn::Bad(0) },
+      Rq::Tck { model: Some("n9".into()), invocable: Some("E".into()), input: TckIn::Bad(3) },
+      Rq::Replace(Content::Model(models[0].clone())),
+      tck("n1", "E", nested.clone()),
+      Rq::Deploy,
+      tck("n1", "E", nested.clone()),
+      Rq::Remove(Some("ns1".into()), Some("n1".into())),
+      tck("n1", "E", nested),
+    ]);
+    for k in 0..TCK_BAD.len() {
+      sequences.push(vec![
+        Rq::Add(Content::Model(models[0].clone())),
+        Rq::Deploy,
+        Rq::Tck { model: Some("n1".into()), invocable: Some("E".into()), input: TckIn::Bad(k) },
+        Rq::Tck { model: Some("n1".into()), invocable: Some("E".into()), input: TckIn::Ok(T::Str("after a rejected input".into())) },
+      ]);
+    }
+  }
   for _ in 0..n_seq {
     let len = 1 + rng.below(12) as usize;
     let mut seq = vec![];
@@ -1357,7 +1436,7 @@ fn run_http(cfg: &Cfg, rep: &mut Report, model: &mut Model, rng: &mut Rng) {
           rng.pick(&names).to_string()
         }
       };
-      let r = match rng.below(20) {
+      let r = match rng.below(25) {
         0..=2 => Rq::Add(content(rng, &mut stored, &mut deployed)),
         3..=5 => Rq::Replace(content(rng, &mut stored, &mut deployed)),
         6 | 7 => {
@@ -1384,7 +1463,21 @@ fn run_http(cfg: &Cfg, rep: &mut Report, model: &mut Model, rng: &mut Rng) {
           Rq::Eval { model: target(rng, &stored, deployed), invocable: "E".into(), body: format!("{{x: {}}}", to_feel(&g)), sent: Some(g.clone()) }
         }
         18 => Rq::Eval { model: target(rng, &stored, deployed), invocable: "E".into(), body: (*rng.pick(&["{x: ", "x", "{x: 1", "\u{1}", "{\"x\": [1, 2}"])).to_string(), sent: None },
-        _ => Rq::Framework(rng.below(7) as u8),
+        19 => Rq::Framework(rng.below(10) as u8),
+        // TCK requests inside the history: aimed as the evaluations are, with the parameter and conversion failures
+        _ => {
+          let model = if rng.chance(1, 10) { None } else { Some(target(rng, &stored, deployed)) };
+          let invocable = if rng.chance(1, 10) { None } else { Some((*rng.pick(&["E", "E", "E", "D", "Z"])).to_string()) };
+          let input = match rng.below(8) {
+            0 => TckIn::Missing,
+            1 => TckIn::Bad(rng.below(TCK_BAD.len() as u64) as usize),
+            _ => {
+              let depth = rng.below(3) as u32;
+              TckIn::Ok(gen_tv(rng, depth))
+            }
+          };
+          Rq::Tck { model, invocable, input }
+        }
       };
       seq.push(r);
     }
@@ -1613,6 +1706,25 @@ fn run_http(cfg: &Cfg, rep: &mut Report, model: &mut Model, rng: &mut Rng) {
           }
           o = Some(v);
         }
+        Rq::Tck { model, invocable, input } => {
+          let head = format!("tck {} {}", opt_atom(model), opt_atom(invocable));
+          match input {
+            TckIn::Missing => parts.push(format!("({} none)", head)),
+            TckIn::Bad(_) => parts.push(format!("({} bad)", head)),
+            TckIn::Ok(t) => {
+              // the readers' answers (in-process) for the texts of the value and the name of the node
+              let mut rows = vec![];
+              reader_rows(&T::Ctx(vec![("x".into(), t.clone())]), &mut rows);
+              // what the deployed invocable answers, written out: E echoes x, D is the literal 1 + 1, an unknown name is null
+              let ans = match invocable.as_deref() {
+                Some("E") => "echo".to_string(),
+                Some("D") => tv_sexp(&T::Scalar("number", "2".into())).to_string(),
+                _ => tv_sexp(&T::Null).to_string(),
+              };
+              parts.push(format!("({} (ok {} {}) {})", head, tv_sexp(t), ans, rows.join(" ")));
+            }
+          }
+        }
         Rq::Framework(_) => {}
       }
       os.push(o);
@@ -1684,7 +1796,7 @@ fn run_http(cfg: &Cfg, rep: &mut Report, model: &mut Model, rng: &mut Rng) {
         rep.disagree(Kind::ImplVsSpec, "response_wellformed", "response content type is not application/json", &input, &a.content_type, "application/json");
       }
       if let Rq::Framework(kind) = r {
-        rep.hit(&format!("http:framework-rejected:{}", kind % 7));
+        rep.hit(&format!("http:framework-rejected:{}", kind % 10));
         // answered by actix-web's error handler (400) or by the default service (`not_found`
         // answers 200): in both cases a well-formed `errors` envelope
         let shape = matches!(&body_json, Ok(j) if matches!(j.get("errors"), Some(J::Arr(xs)) if xs.len() == 1 && matches!(xs[0].get("details"), Some(J::Str(_)))));
@@ -1692,7 +1804,7 @@ fn run_http(cfg: &Cfg, rep: &mut Report, model: &mut Model, rng: &mut Rng) {
           rep.disagree(
             Kind::ImplVsSpec,
             "response_wellformed",
-            &format!("request rejected before a handler runs (kind {}) is not answered with an errors envelope", kind % 7),
+            &format!("request rejected before a handler runs (kind {}) is not answered with an errors envelope", kind % 10),
             &input,
             &format!("{} {}", a.status, text),
             "{\"errors\":[{\"details\":...}]}",
@@ -1766,6 +1878,10 @@ fn run_http(cfg: &Cfg, rep: &mut Report, model: &mut Model, rng: &mut Rng) {
     rep.hit(&format!("http:sequence-length:{}", if seq.len() > 8 { ">8".to_string() } else { seq.len().to_string() }));
   }
   run_tck(cfg, rep, model, rng, &svc, &mut server, &models[0]);
+  {
+    let mut r = rng.fork();
+    run_wire(cfg, rep, model, &mut r, &mut server, &models[0]);
+  }
   run_limits(cfg, rep, &svc, &mut server, &models[0]);
   run_parallel_clients(cfg, rep, rng, &svc, &mut server, &models);
   run_unreadable_bodies(rep, &svc, &mut server, &models[0]); // c19fix: unreadable bodies, non-finite results
@@ -1782,6 +1898,313 @@ fn run_http(cfg: &Cfg, rep: &mut Report, model: &mut Model, rng: &mut Rng) {
   rep.extra.insert("http_sequences".into(), json!(sequences.len()));
 }
 
+
+// ------------------------------------------------------------------------------------------
+// family `wire`: ValueDto documents as a client may write them (members absent, null, of the wrong kind, of
+// other names, written twice, in any order; `simple` next to `list`) through POST /tck/evaluate, against the model
+// of the derived Deserialize (`Dto.readValue`), of the conversion (`fromDto`) and of the answer (`tckBody`)
+// ------------------------------------------------------------------------------------------
+
+const SIG_WIRE_ERRORS: &str = "wire: a TCK value document that cannot be read or converted is not answered with a JSON document that has the errors member";
+const SIG_WIRE_MODEL: &str = "wire: the answer to a TCK value document differs from the model of the DTO layer";
+
+fn j_text(j: &J, out: &mut String) {
+  match j {
+    J::Null => out.push_str("null"),
+    J::Bool(b) => out.push_str(if *b { "true" } else { "false" }),
+    J::Num(t) => out.push_str(t),
+    J::Str(t) => out.push_str(&serde_json::to_string(t).unwrap_or_default()),
+    J::Arr(xs) => {
+      out.push('[');
+      for (i, x) in xs.iter().enumerate() {
+        if i > 0 {
+          out.push(',');
+        }
+        j_text(x, out);
+      }
+      out.push(']');
+    }
+    J::Obj(ms) => {
+      out.push('{');
+      for (i, (k, v)) in ms.iter().enumerate() {
+        if i > 0 {
+          out.push(',');
+        }
+        out.push_str(&serde_json::to_string(k).unwrap_or_default());
+        out.push(':');
+        j_text(v, out);
+      }
+      out.push('}');
+    }
+  }
+}
+
+fn shuffle<X>(rng: &mut Rng, xs: &mut Vec<X>) {
+  for i in (1..xs.len()).rev() {
+    let j = rng.below(i as u64 + 1) as usize;
+    xs.swap(i, j);
+  }
+}
+
+/// something of the wrong JSON kind (or, rarely, of any kind) for a field
+fn gen_junk(rng: &mut Rng) -> J {
+  match rng.below(6) {
+    0 => J::Num("1".into()),
+    1 => J::Str("a".into()),
+    2 => J::Bool(false),
+    3 => J::Arr(vec![]),
+    4 => J::Obj(vec![]),
+    _ => J::Arr(vec![J::Null, J::Num("2".into())]),
+  }
+}
+
+fn gen_wire_simple(rng: &mut Rng) -> J {
+  if rng.chance(1, 6) {
+    return J::Null;
+  }
+  if rng.chance(1, 25) {
+    return gen_junk(rng);
+  }
+  let mut ms: Vec<(String, J)> = vec![];
+  let (typ, text): (&str, String) = match rng.below(12) {
+    0 => ("xsd:string", gen_string(rng, true)),
+    1 => ("xsd:boolean", (*rng.pick(&["true", "false", "1", "0", "TRUE", ""])).to_string()),
+    2 => ("xsd:decimal", gen_number(rng)),
+    3 => ("xsd:integer", (*rng.pick(&["7", "007", "-3", "1e2", "x"])).to_string()),
+    4 => ("xsd:double", (*rng.pick(&["1.5", "1E3", "NaN", ".5"])).to_string()),
+    5 => ("xsd:date", (*rng.pick(&["2021-02-03", "2021-13-45", "999999999-01-01"])).to_string()),
+    6 => ("xsd:time", (*rng.pick(&["10:11:12", "10:11:12Z", "25:00:00"])).to_string()),
+    7 => ("xsd:dateTime", (*rng.pick(&["2021-02-03T10:11:12", "2021-02-03T10:11:12+02:00", "2021-02-03"])).to_string()),
+    8 => ("xsd:duration", (*rng.pick(&["P1Y2M", "P1DT2H", "-PT0.5S", "P", "PT36H"])).to_string()),
+    9 => ("xsd:unknown", "1".to_string()),
+    10 => ("", "".to_string()),
+    _ => ("xsd:string", "plain".to_string()),
+  };
+  if !rng.chance(1, 12) {
+    ms.push(("type".into(), if rng.chance(1, 15) { J::Null } else if rng.chance(1, 40) { gen_junk(rng) } else { J::Str(typ.into()) }));
+  }
+  if !rng.chance(1, 12) {
+    ms.push(("text".into(), if rng.chance(1, 15) { J::Null } else if rng.chance(1, 40) { gen_junk(rng) } else { J::Str(text) }));
+  }
+  if !rng.chance(1, 12) {
+    ms.push(("isNil".into(), if rng.chance(1, 30) { gen_junk(rng) } else { J::Bool(rng.chance(1, 6)) }));
+  }
+  if rng.chance(1, 10) {
+    ms.push(("extra".into(), gen_junk(rng)));
+  }
+  if rng.chance(1, 25) && !ms.is_empty() {
+    let d = rng.pick(&ms).clone();
+    ms.push(d);
+  }
+  shuffle(rng, &mut ms);
+  J::Obj(ms)
+}
+
+fn gen_wire_value(rng: &mut Rng, depth: u32) -> J {
+  if rng.chance(1, 40) {
+    return gen_junk(rng);
+  }
+  let mut ms: Vec<(String, J)> = vec![];
+  // which attribute carries the value; the others are absent, null or (rarely) present too
+  let main = if depth == 0 { 0 } else { rng.below(3) };
+  let other = |rng: &mut Rng, ms: &mut Vec<(String, J)>, name: &str, depth: u32| match rng.below(10) {
+    0..=3 => {}
+    4..=7 => ms.push((name.to_string(), J::Null)),
+    8 => ms.push((name.to_string(), match name {
+      "simple" => gen_wire_simple(rng),
+      "components" => gen_wire_components(rng, depth.saturating_sub(1)),
+      _ => gen_wire_list(rng, depth.saturating_sub(1)),
+    })),
+    _ => ms.push((name.to_string(), gen_junk(rng))),
+  };
+  match main {
+    0 => {
+      ms.push(("simple".into(), gen_wire_simple(rng)));
+      other(rng, &mut ms, "components", depth);
+      other(rng, &mut ms, "list", depth);
+    }
+    1 => {
+      other(rng, &mut ms, "simple", depth);
+      ms.push(("components".into(), gen_wire_components(rng, depth - 1)));
+      other(rng, &mut ms, "list", depth);
+    }
+    _ => {
+      other(rng, &mut ms, "simple", depth);
+      other(rng, &mut ms, "components", depth);
+      ms.push(("list".into(), gen_wire_list(rng, depth - 1)));
+    }
+  }
+  if rng.chance(1, 10) {
+    ms.push(((*rng.pick(&["extra", "Simple", "value", "items"])).to_string(), gen_junk(rng)));
+  }
+  if rng.chance(1, 30) {
+    let d = rng.pick(&ms).clone();
+    ms.push(d);
+  }
+  if rng.chance(1, 2) {
+    shuffle(rng, &mut ms);
+  }
+  J::Obj(ms)
+}
+
+fn gen_wire_components(rng: &mut Rng, depth: u32) -> J {
+  if rng.chance(1, 25) {
+    return gen_junk(rng);
+  }
+  let mut cs = vec![];
+  for _ in 0..rng.below(4) {
+    let mut ms: Vec<(String, J)> = vec![];
+    if !rng.chance(1, 12) {
+      ms.push(("name".into(), if rng.chance(1, 15) { J::Null } else { J::Str((*rng.pick(&["a", "b", "a", "Full Name", "k1", "x y z", "", "+"])).to_string()) }));
+    }
+    if !rng.chance(1, 10) {
+      ms.push(("value".into(), if rng.chance(1, 8) { J::Null } else { gen_wire_value(rng, depth) }));
+    }
+    if !rng.chance(1, 15) {
+      ms.push(("isNil".into(), J::Bool(rng.chance(1, 6))));
+    }
+    if rng.chance(1, 12) {
+      ms.push(("extra".into(), gen_junk(rng)));
+    }
+    if rng.chance(1, 3) {
+      shuffle(rng, &mut ms);
+    }
+    cs.push(J::Obj(ms));
+  }
+  J::Arr(cs)
+}
+
+fn gen_wire_list(rng: &mut Rng, depth: u32) -> J {
+  if rng.chance(1, 25) {
+    return gen_junk(rng);
+  }
+  let mut ms: Vec<(String, J)> = vec![];
+  if !rng.chance(1, 15) {
+    let items = if rng.chance(1, 25) { gen_junk(rng) } else { J::Arr((0..rng.below(4)).map(|_| gen_wire_value(rng, depth)).collect()) };
+    ms.push(("items".into(), items));
+  }
+  if !rng.chance(1, 15) {
+    ms.push(("isNil".into(), J::Bool(rng.chance(1, 8))));
+  }
+  if rng.chance(1, 12) {
+    ms.push(("extra".into(), gen_junk(rng)));
+  }
+  if rng.chance(1, 3) {
+    shuffle(rng, &mut ms);
+  }
+  J::Obj(ms)
+}
+
+/// The readers' answers for every (type, text) pair and every component name of the document.
+fn wire_rows(j: &J, rows: &mut Vec<String>) {
+  match j {
+    J::Arr(xs) => xs.iter().for_each(|x| wire_rows(x, rows)),
+    J::Obj(ms) => {
+      let str_of = |key: &str| ms.iter().find(|(k, _)| k == key).and_then(|(_, v)| if let J::Str(t) = v { Some(t.clone()) } else { None });
+      if let (Some(typ), Some(text)) = (str_of("type"), str_of("text")) {
+        let kind: Option<&'static str> = match typ.as_str() {
+          "xsd:integer" | "xsd:decimal" | "xsd:double" => Some("number"),
+          "xsd:date" => Some("date"),
+          "xsd:time" => Some("time"),
+          "xsd:dateTime" => Some("dateTime"),
+          "xsd:duration" => Some("dtDuration"),
+          _ => None,
+        };
+        if let Some(kind) = kind {
+          reader_rows(&T::Scalar(kind, text), rows);
+        }
+      }
+      if let Some(name) = str_of("name") {
+        reader_rows(&T::Ctx(vec![(name, T::Null)]), rows);
+      }
+      ms.iter().for_each(|(_, v)| wire_rows(v, rows));
+    }
+    _ => {}
+  }
+}
+
+fn run_wire(cfg: &Cfg, rep: &mut Report, model: &mut Model, rng: &mut Rng, server: &mut Server, m: &MDef) {
+  let n = if cfg.tier == "thorough" { 20_000 } else { 700 };
+  let js = Some("application/json");
+  let mut docs: Vec<J> = vec![];
+  for _ in 0..n {
+    let depth = rng.below(3) as u32;
+    docs.push(gen_wire_value(rng, depth));
+  }
+  let reqs: Vec<String> = docs
+    .iter()
+    .map(|d| {
+      let mut rows = vec![];
+      reader_rows(&T::Ctx(vec![("x".into(), T::Null)]), &mut rows);
+      wire_rows(d, &mut rows);
+      format!("(c18 wire {} {})", d.sexp(), rows.join(" "))
+    })
+    .collect();
+  let answers = model.ask_batch(&reqs);
+  for ((d, req), ans) in docs.iter().zip(reqs.iter()).zip(answers.iter()) {
+    let mut doc = String::new();
+    j_text(d, &mut doc);
+    let body = format!("{{\"model\":{},\"invocable\":\"E\",\"input\":[{{\"name\":\"x\",\"value\":{}}}]}}", json!(m.name), doc);
+    let input = format!("POST /tck/evaluate {} ;; {}", body.chars().take(600).collect::<String>(), req.chars().take(300).collect::<String>());
+    let a = match http(server.port, "POST", "/tck/evaluate", js, body.as_bytes()) {
+      Ok(a) => a,
+      Err(e) => {
+        rep.disagree(Kind::ImplVsSpec, "http", "the service stopped answering", &input, &e, "an answer");
+        return;
+      }
+    };
+    let text = String::from_utf8_lossy(&a.body).to_string();
+    let parsed = match strict_parse(&text) {
+      Ok(j) => j,
+      Err(e) => {
+        rep.disagree(Kind::ImplVsSpec, "response_wellformed", "response body is not well-formed JSON", &input, &format!("{}: {}", text, e), "a JSON document");
+        continue;
+      }
+    };
+    let am = Sexp::parse(ans);
+    let read = am.as_ref().and_then(|x| field(x, "read")).map(|x| x.to_string());
+    let back = am.as_ref().and_then(|x| field(x, "back")).map(|x| x.to_string()).unwrap_or_default();
+    let m_answer = am.as_ref().and_then(|x| field(x, "answer")).map(|x| x.to_string()).unwrap_or_default();
+    let m_body = am.as_ref().and_then(|x| field(x, "body")).and_then(chars_of);
+    let read = match read {
+      Some(r) => r,
+      None => {
+        rep.disagree(Kind::ImplVsModel, "wire", "driver-error", &input, &text, ans);
+        continue;
+      }
+    };
+    let class = if read != "ok" { "unreadable" } else if back == "none" { "rejected" } else { "value" };
+    rep.case(req, class != "unreadable");
+    rep.hit(&format!("wire:{}:{}", class, if read == "ok" { "ok".to_string() } else { read.split(' ').next().unwrap_or("").trim_matches('(').to_string() }));
+    let errors_shape = matches!(parsed.get("errors"), Some(J::Arr(xs)) if xs.len() == 1 && matches!(xs[0].get("details"), Some(J::Str(_))));
+    match class {
+      "unreadable" | "rejected" => {
+        // failures are reported in the errors member (the property); which of the two layers rejects shows in the status
+        if !errors_shape {
+          let kind = if parsed.get("data").is_some() { Kind::ImplVsModel } else { Kind::ImplVsSpec };
+          let sig = if parsed.get("data").is_some() { SIG_WIRE_MODEL } else { SIG_WIRE_ERRORS };
+          rep.disagree(kind, "wire", sig, &input, &format!("{} {}", a.status, text), &format!("an errors answer (model: read {} back {})", read, back));
+        } else if (class == "unreadable") != (a.status == 400) {
+          rep.disagree(Kind::ImplVsModel, "wire", "wire: the layer that rejects a TCK value document (Deserialize: 400, conversion: 200) differs from the model", &input, &format!("{} {}", a.status, text), &format!("read {} back {}", read, back));
+        }
+      }
+      _ => {
+        // both sides as documents with members sorted by name and the entries of every context sorted by name
+        let canon = |text: &str| strict_parse(text).ok().map(|j| components_by_name(&sorted_j(&j)).sexp().to_string());
+        let same = m_body.as_deref().and_then(canon).is_some() && m_body.as_deref().and_then(canon) == canon(&text) && !m_answer.is_empty();
+        if !same {
+          rep.disagree(Kind::ImplVsModel, "wire", SIG_WIRE_MODEL, &input, &text, &m_answer);
+        } else if !text.contains("\"components\":[{") && m_body.as_deref() != Some(text.as_str()) {
+          // without a component in it (the order of the entries of a context is the map's) the body is the model's, byte for byte
+          rep.disagree(Kind::ImplVsModel, "wire", "wire: the text of the answer differs from serde_json's writer as modelled", &input, &text, &m_body.unwrap_or_default());
+        }
+      }
+    }
+    if rep.samples.len() < 16 && rng.chance(1, 100) {
+      rep.sample(json!({"family": "wire", "sent": doc, "answer": text, "model": class}));
+    }
+  }
+}
 
 // ------------------------------------------------------------------------------------------
 // family `tck`: typed values in TCK format through POST /tck/evaluate and back
@@ -2166,6 +2589,29 @@ fn sorted_by_text(json_sexp: &str) -> String {
   }
 }
 
+/// The entries of a context come out of a map (ordered by name), the model keeps them in the order of insertion:
+/// every `components` array sorted by the text of its `name` member.
+fn components_by_name(j: &J) -> J {
+  match j {
+    J::Arr(xs) => J::Arr(xs.iter().map(components_by_name).collect()),
+    J::Obj(ms) => J::Obj(
+      ms.iter()
+        .map(|(k, v)| {
+          let v = components_by_name(v);
+          match (k.as_str(), v) {
+            ("components", J::Arr(mut cs)) => {
+              cs.sort_by_key(|c| c.get("name").map(|n| n.sexp().to_string()).unwrap_or_default());
+              (k.clone(), J::Arr(cs))
+            }
+            (_, v) => (k.clone(), v),
+          }
+        })
+        .collect(),
+    ),
+    other => other.clone(),
+  }
+}
+
 // ------------------------------------------------------------------------------------------
 // family `parallel`: several clients at once — only well-formedness and survival are checked
 // (answers depend on the order in which the service takes the workspace lock)
@@ -2285,6 +2731,7 @@ fn endpoint(r: &Rq) -> &'static str {
     Rq::Clear => "clear",
     Rq::Deploy => "deploy",
     Rq::Eval { .. } => "evaluate",
+    Rq::Tck { .. } => "tck",
     Rq::Framework(_) => "framework",
   }
 }
